@@ -178,7 +178,7 @@ func runIPAM(c *c19Case) *overlapTracker {
 	alt := []ipamsim.PoolT{topo.Pools[0], {NodeSubnets: []string{"10.49.28.0/26"}, Subnet: "10.0.80.0/24", Gateway: "10.0.80.1", Vlan: 3,
 		Ranges: [][2]uint32{{0x0a005002, 0x0a005005}}}}
 	hc := &ipamsim.Case{Topo: topo, Cloud: true, WLs: []ipamsim.WL{{Kind: "sts", Name: "s0", Replicas: 3, Policy: "immutable"}, {Kind: "dp", Name: "d0", Replicas: 3, Pool: "p0"},
-		{Kind: "cr", Name: "c0", Replicas: 2}, {Kind: "bare", Name: "b0"}}, PoolObjs: []ipamsim.PoolObj{{Name: "p0", Size: 3}}}
+		{Kind: "cr", Name: "c0", Replicas: 2, Policy: "immutable"}, {Kind: "nscr", Name: "x0", Replicas: 2, Policy: "immutable"}, {Kind: "bare", Name: "b0"}}, PoolObjs: []ipamsim.PoolObj{{Name: "p0", Size: 3}}}
 	x, err := ipamsim.NewExec(hc, &vcore.Rec{})
 	if err != nil {
 		panic(err)
